@@ -1,6 +1,8 @@
 package server
 
 import (
+	"reflect"
+
 	"github.com/Tnze/go-mc/chat"
 	"github.com/Tnze/go-mc/data/packetid"
 	"github.com/Tnze/go-mc/net"
@@ -16,18 +18,44 @@ type Configurations struct {
 	Registries registry.Registries
 }
 
+// AcceptConfig sends every registry in a packet of its own (its identifier followed by its entries, which is
+// what a client in the configuration state reads), finishes the configuration and waits for the client's
+// acknowledgement: only then is the connection in the play state.
 func (c *Configurations) AcceptConfig(conn *net.Conn) error {
+	registries := reflect.ValueOf(&c.Registries).Elem()
+	for i := 0; i < registries.NumField(); i++ {
+		id, ok := registries.Type().Field(i).Tag.Lookup("registry")
+		if !ok {
+			continue
+		}
+		entries, ok := registries.Field(i).Addr().Interface().(pk.FieldEncoder)
+		if !ok {
+			continue
+		}
+		err := conn.WritePacket(pk.Marshal(
+			packetid.ClientboundConfigRegistryData,
+			pk.Identifier(id), entries,
+		))
+		if err != nil {
+			return err
+		}
+	}
 	err := conn.WritePacket(pk.Marshal(
-		packetid.ClientboundConfigRegistryData,
-		pk.NBT(c.Registries),
+		packetid.ClientboundConfigFinishConfiguration,
 	))
 	if err != nil {
 		return err
 	}
-	err = conn.WritePacket(pk.Marshal(
-		packetid.ClientboundConfigFinishConfiguration,
-	))
-	return err
+	// whatever else the client sends while configuring (its settings, plugin messages) is not handled here
+	var p pk.Packet
+	for {
+		if err := conn.ReadPacket(&p); err != nil {
+			return err
+		}
+		if packetid.ServerboundPacketID(p.ID) == packetid.ServerboundConfigFinishConfiguration {
+			return nil
+		}
+	}
 }
 
 type ConfigFailErr struct {
